@@ -227,6 +227,7 @@ type result struct {
 	Samples    []json.RawMessage `json:"samples"`
 	SimSeconds float64           `json:"sim_seconds"`
 	WallS      float64           `json:"wall_s"`
+	Troubles   []string          `json:"-"`
 	Digests    map[string]string `json:"digests"`
 }
 
@@ -305,6 +306,9 @@ func cmdCheck(id string, args []string) int {
 		fmt.Fprintf(os.Stderr, "RUN-TROUBLE property=%s: %v\n", id, err)
 		return 2
 	}
+	for _, tr := range merged.Troubles {
+		fmt.Fprintf(os.Stderr, "RUN-TROUBLE property=%s: %s\n", id, tr)
+	}
 	// classify
 	findings := loadFindings()
 	known := map[string]finding{}
@@ -349,6 +353,12 @@ func cmdCheck(id string, args []string) int {
 	}
 	fmt.Printf("check %s tier=%s seed=%d: runs=%d evals=%d distinct=%d violations=%d known=%d build=%.1fs wall=%.1fs\n",
 		id, *tier, seed, merged.Runs, merged.Evals, len(merged.Keys), nviol, len(knownSeen), s.BuildS, wall)
+	if len(merged.Troubles) > 0 && exit == 0 {
+		// part of the batch did not run to its end and nothing was found in the rest: that is
+		// trouble, not a pass. (Violations found by the processes that did finish are reported
+		// as such: they are real and replayable whatever happened to the other processes.)
+		return 2
+	}
 	return exit
 }
 
@@ -428,12 +438,22 @@ func runProcs(s *scratch, pc *propCfg, tc tierCfg, tier string, seed uint64, rep
 		}(i, j)
 	}
 	wg.Wait()
-	for _, e := range errs {
+	// a harness process that died or hung contributes nothing; what the others found stands
+	failed := 0
+	for i, e := range errs {
 		if e != nil {
-			return nil, e
+			failed++
+			merged.Troubles = append(merged.Troubles, e.Error())
+			jobs[i].out = ""
 		}
 	}
+	if failed == len(jobs) {
+		return nil, fmt.Errorf("every harness process failed; first: %s", merged.Troubles[0])
+	}
 	for _, j := range jobs {
+		if j.out == "" {
+			continue
+		}
 		b, err := os.ReadFile(j.out)
 		if err != nil {
 			return nil, err
@@ -550,6 +570,9 @@ func writeEvidence(pc *propCfg, tier string, seed uint64, tc tierCfg, s *scratch
 		"transform":           map[string]interface{}{"map_range_sites": s.Report.MapSites, "files_rewritten": s.Report.Files, "shimmed_files": s.Report.ShimFiles, "go_sites": s.Report.GoSites, "chan_sites": s.Report.ChanSites, "yield_sites": s.Report.YieldSites, "access_sites": s.Report.AccessSites},
 		"build_s":             s.BuildS,
 		"exhaustive":          false,
+	}
+	if len(m.Troubles) > 0 {
+		cov["harness_processes_that_died_or_hung"] = len(m.Troubles) // their share of the batch did not run
 	}
 	ev := map[string]interface{}{
 		"property_id": pc.ID,
